@@ -43,6 +43,10 @@ def import_path(src, dst, layout, dot):
 def build(case):
     """case = {"n", "edges": [(i, j, form, slot, dot)], "layout"} -> (files, expected trace lines)"""
     n, layout = case["n"], case["layout"]
+    # what a module exports: "full" (counter, bump, getter, list), "const" (one constant), "none" (nothing: side effects only)
+    prof = {int(k): v for k, v in (case.get("profiles") or {}).items()}
+    P = lambda k: prof.get(k, "full")
+    infn = [list(x) for x in (case.get("infn") or [])]
     by_src = {k: sorted([e for e in case["edges"] if e[0] == k], key=lambda e: (e[3], e[1])) for k in range(n)}
     files = {}
     for k in range(n):
@@ -50,7 +54,18 @@ def build(case):
         slots = {0: [], 1: [], 2: []}
         for (i, j, form, slot, dot) in by_src[k]:
             p = import_path(i, j, layout, dot)
-            if form == "module":
+            if [i, j, form] in infn and P(j) == "full":
+                # the import statement sits inside a function of the importer and runs when that function is called
+                if form == "module":
+                    slots[slot].append("ld_%d_%d = fn() -> int {\n\timport %s\n\treturn m%d.bump_%d()\n}" % (i, j, p, j, j))
+                else:
+                    slots[slot].append("ld_%d_%dn = fn() -> int {\n\timport bump_%d, get_%d from %s\n\treturn bump_%d()\n}" % (i, j, j, j, p, j))
+                slots[slot].append("print \"m%d->m%d \" + ld_%d_%d%s()" % (i, j, i, j, "" if form == "module" else "n"))
+                continue
+            if P(j) != "full":
+                slots[slot].append("import %s" % p)
+                slots[slot].append("print \"m%d->m%d\"%s" % (i, j, (" + m%d.tag_%d" % (j, j)) if P(j) == "const" else ""))
+            elif form == "module":
                 slots[slot].append("import %s" % p)
                 slots[slot].append("print \"m%d->m%d \" + m%d.bump_%d()" % (i, j, j, j))
             else:
@@ -58,7 +73,11 @@ def build(case):
                 slots[slot].append("print \"m%d->m%d \" + bump_%d()" % (i, j, j))
         lines.append("print \"m%d:0\"" % k)
         lines += slots[0]
-        if k > 0:
+        if k > 0 and P(k) == "none":
+            lines += ["hidden_%d = %d" % (k, 100 + k)]
+        elif k > 0 and P(k) == "const":
+            lines += ["hidden_%d = %d" % (k, 100 + k), "export const tag_%d: int = %d" % (k, 7 * k)]
+        elif k > 0:
             lines += ["hidden_%d = %d" % (k, 100 + k),
                       "export counter_%d: int = 0" % k,
                       "export bump_%d: fn() -> int = fn() -> int {\n\tmodify counter_%d = counter_%d + 1\n\treturn counter_%d\n}" % (k, k, k, k),
@@ -70,6 +89,8 @@ def build(case):
         lines += slots[2]
         if k == 0:
             for (i, j, form, slot, dot) in by_src[0]:
+                if P(j) != "full" or [i, j, form] in infn:
+                    continue
                 if form == "module":
                     lines.append("print \"final m%d \" + m%d.get_%d()" % (j, j, j))
                     lines.append("print m%d.items_%d" % (j, j))
@@ -90,12 +111,17 @@ def build(case):
                 if j not in done:
                     done.add(j)
                     run_module(j)
+                if P(j) != "full":
+                    out.append("m%d->m%d%s" % (i, j, str(7 * j) if P(j) == "const" else ""))
+                    continue
                 counter[j] += 1
                 out.append("m%d->m%d %d" % (i, j, counter[j]))
             if slot < 2:
                 out.append("m%d:%d" % (k, slot + 1))
         if k == 0:
             for (i, j, form, s, dot) in by_src[0]:
+                if P(j) != "full" or [i, j, form] in infn:
+                    continue
                 out.append("final m%d %d" % (j, counter[j]))
                 if form == "module":
                     out.append("[%d]" % j)
@@ -126,6 +152,10 @@ def negative_scenario(kind):
         main = "import hidden_1 from m1\nprint \"@start\"\nprint hidden_1\n"
     elif kind == "write-module-member":
         main = "import m1\nprint \"@start\"\nm1.counter_1 = 9\nprint m1.get_1()\n"
+    elif kind == "write-through-module-alias":
+        main = "import m1\nprint \"@start\"\nk = m1\nk.counter_1 = 9\nprint m1.get_1()\n"
+    elif kind == "opassign-through-module-alias":
+        main = "import m1\nprint \"@start\"\nk = m1\nk.counter_1 += 9\nprint m1.get_1()\n"
     elif kind == "wrong-type-use":
         main = "import counter_1 from m1\nprint \"@start\"\nx: str = counter_1\nprint x\n"
     else:
@@ -136,13 +166,13 @@ def negative_scenario(kind):
                         {"kind": "stdout_lacks", "step": "run", "value": "@start"}, {"kind": "stdout_lacks", "step": "run", "value": "m1 init"}]}
 
 
-NEGATIVES = ["private-via-module", "private-via-names", "write-module-member", "wrong-type-use"]
+NEGATIVES = ["private-via-module", "private-via-names", "write-module-member", "write-through-module-alias", "opassign-through-module-alias", "wrong-type-use"]
 
 
 def describe(case):
     if "negative" in case:
         return "negative:" + case["negative"]
-    return "n=%d layout=%s edges=%s" % (case["n"], case["layout"], " ".join("%d>%d:%s@%d%s" % (i, j, f[0], s, "." if d else "") for i, j, f, s, d in case["edges"]))
+    return "n=%d layout=%s%s%s edges=%s" % (case["n"], case["layout"], (" infn=%s" % case["infn"]) if case.get("infn") else "", (" profiles=%s" % sorted((case.get("profiles") or {}).items())) if case.get("profiles") else "", " ".join("%d>%d:%s@%d%s" % (i, j, f[0], s, "." if d else "") for i, j, f, s, d in case["edges"]))
 
 
 def check(case):
@@ -163,7 +193,7 @@ def check(case):
         forms.setdefault(j, set()).add(f)
     nt = any(v >= 2 for v in indeg.values()) or any(len(v) == 2 for v in forms.values())
     labels = ["n=%d" % case["n"], "layout=" + case["layout"]] + (["diamond"] if any(v >= 2 for v in indeg.values()) else []) + \
-             (["dot-spelling"] if any(d for *_, d in case["edges"]) else [])
+             (["dot-spelling"] if any(d for *_, d in case["edges"]) else []) + (["import-inside-function"] if case.get("infn") else []) + ["exports=" + v for v in set((case.get("profiles") or {}).values())]
     r = CaseResult(nt_keys=[describe(case)] if nt else [], labels=labels, sample={"case": describe(case), "main.ms": files["main.ms"], "expected": exp[:12]})
     if fails:
         feats = []
@@ -194,6 +224,18 @@ def enumerated(tier, seed):
                 for placement in (0, 1):
                     edges = [(i, j, f, (placement + b) % 3, False) for b, ((i, j), f) in enumerate(zip(es, forms))]
                     cases.append({"n": n, "edges": edges, "layout": "flat"})
+        # the same graphs with every import statement of one importer placed inside a function of that importer
+        for es in all_dags(n):
+            for form in ("module", "names"):
+                edges = [(i, j, form, b % 3, False) for b, (i, j) in enumerate(es)]
+                for src in sorted(set(i for i, _ in es)):
+                    cases.append({"n": n, "edges": edges, "layout": "flat", "infn": [[i, j, form] for i, j in es if i == src]})
+        # the same graphs with a module that exports nothing / only a constant (module-form imports only)
+        for es in all_dags(n):
+            for j in range(1, n):
+                for pk in ("none", "const"):
+                    edges = [(i, jj, "module" if jj == j else "names", b % 3, False) for b, (i, jj) in enumerate(es)]
+                    cases.append({"n": n, "edges": edges, "layout": "flat", "profiles": {str(j): pk}})
     return cases
 
 
@@ -208,7 +250,23 @@ def graphs(draw):
             forms = ["module", "names"] if g.chance(15) else [g.choice(["module", "names"])]
             for f in forms:
                 edges.append((i, j, f, g.int(0, 2), g.chance(12)))
-    return {"n": n, "edges": edges, "layout": g.choice(["flat", "flat", "sub"])}
+    profiles = {str(j): g.choice(["none", "const"]) for j in range(1, n) if g.chance(20)}
+    # a module without a full export table can only be imported in module form, once per importer
+    seen, kept = set(), []
+    for e in edges:
+        if str(e[1]) in profiles:
+            if (e[0], e[1]) in seen:
+                continue
+            seen.add((e[0], e[1]))
+        kept.append(e)
+    edges = kept
+    infn = [[e[0], e[1], e[2]] for e in edges if g.chance(15)]
+    # one name per importer: an edge inside a function needs its (importer, imported, form) to be unique
+    infn = [x for x in infn if sum(1 for e in edges if [e[0], e[1], e[2]] == x) == 1]
+    if infn:
+        g.label("import-inside-function")
+        return {"n": n, "edges": edges, "layout": g.choice(["flat", "flat", "sub"]), "profiles": profiles, "infn": infn}
+    return {"n": n, "edges": edges, "layout": g.choice(["flat", "flat", "sub"]), "profiles": profiles}
 
 
 def strategy(tier):
